@@ -5,11 +5,13 @@ import re
 
 from . import templates as T
 
-STYLES = ["sa_select", "sa_select_aliased", "sa_legacy", "sa_core", "dj_qs", "dj_manager",
+STYLES = ["sa_select", "sa_select_aliased", "sa_legacy", "sa_core", "sa_core_cols", "dj_qs",
+          "dj_manager",
           "dj_custom_manager", "dj_related_manager"]
 # related managers the host may start from: root model -> (owner model, accessor, fk column)
 RELATED = {"Post": ("Author", "posts", "author_id"),
            "Comment": ("Post", "comments", "post_id")}
+CORE_STYLES = ("sa_core", "sa_core_cols")
 HOST_OPS = {"eq": "__eq__", "ne": "__ne__", "lt": "__lt__", "le": "__le__", "gt": "__gt__",
             "ge": "__ge__"}
 DJ_LOOKUP = {"eq": "exact", "lt": "lt", "le": "lte", "gt": "gt", "ge": "gte"}
@@ -140,6 +142,11 @@ class Builder:
             return sess.query(L.sm.MODELS[root])
         if style == "sa_core":
             return L.select(L.sm.TABLES[root])
+        if style == "sa_core_cols":
+            # the host selects two columns only; filters may name any column of the table
+            t = L.sm.TABLES[root]
+            second = sorted(c for c in T.SCALARS[root] if c != "id")[-1]
+            return L.select(t.c.id, t.c[second])
         if style == "dj_qs":
             return L.dm.MODELS[root].objects.all()
         if style == "dj_manager":
@@ -164,7 +171,7 @@ class Builder:
             if cond["op"] == "ne":
                 return obj.exclude(**{cond["f"] + "__exact": cond["v"]})
             return obj.filter(**{cond["f"] + "__" + DJ_LOOKUP[cond["op"]]: cond["v"]})
-        col = (L.sm.TABLES[root].c[cond["f"]] if style == "sa_core"
+        col = (L.sm.TABLES[root].c[cond["f"]] if style in CORE_STYLES
                else getattr(self.entity(style, root, obj), cond["f"]))
         expr = getattr(col, HOST_OPS[cond["op"]])(cond["v"])
         return obj.filter(expr) if style == "sa_legacy" else obj.where(expr)
@@ -199,7 +206,7 @@ class Builder:
         L = self.L
         if is_dj(style):
             return obj.order_by(("-" if o["dir"] == "desc" else "") + o["f"], "id")
-        if style == "sa_core":
+        if style in CORE_STYLES:
             c, pk = L.sm.TABLES[root].c[o["f"]], L.sm.TABLES[root].c.id
         else:
             ent = self.entity(style, root, obj)
@@ -213,7 +220,7 @@ class Builder:
         L = self.L
         if is_dj(style):
             return L.dj_apply(obj, text)
-        if style == "sa_core":
+        if style in CORE_STYLES:
             return L.sa_core_apply(obj, text)
         return L.sa_apply(obj, text)
 
@@ -276,7 +283,7 @@ class Builder:
             return [o.pk for o in rows], extra
         if style == "sa_legacy":
             return [o.id for o in obj.all()], None
-        if style == "sa_core":
+        if style in CORE_STYLES:
             return [r[0] for r in session.execute(obj).all()], None
         return [o.id for o in session.execute(obj).scalars().unique().all()], None
 
